@@ -285,3 +285,34 @@ Proof.
     replace (d + list_sum dn + sent - d) with (list_sum dn + sent) by lia.
     rewrite IH by assumption. reflexivity.
 Qed.
+
+(* flush reports a torn buffer exactly when the buffer it stopped in got a proper, non-empty part *)
+Lemma attribute_torn_zero lens : attribute_torn lens 0 = false.
+Proof.
+  induction lens as [|l rest IH]; simpl; [reflexivity|]. destruct (Nat.leb_spec l 0); simpl; [|exact IH].
+  assert (l = 0) by lia. subst. simpl. exact IH.
+Qed.
+
+Lemma attribute_torn_split dn : forall cl rest sent,
+  sent <= cl -> attribute_torn (dn ++ cl :: rest) (list_sum dn + sent) = (0 <? sent) && (sent <? cl).
+Proof.
+  induction dn as [|d dn IH]; intros cl rest sent Hs; simpl.
+  - destruct (Nat.leb_spec cl sent).
+    + assert (sent = cl) by lia. subst. rewrite Nat.sub_diag, attribute_torn_zero.
+      destruct (Nat.ltb_spec cl cl); [lia|]. apply eq_sym, andb_false_r.
+    + rewrite attribute_torn_zero, orb_false_r. destruct (Nat.ltb_spec sent cl); [|lia]. rewrite andb_true_r. reflexivity.
+  - destruct (Nat.leb_spec d (d + list_sum dn + sent)); [|lia].
+    replace (d + list_sum dn + sent - d) with (list_sum dn + sent) by lia. apply IH. exact Hs.
+Qed.
+
+(* a context that has ended stays ended, with the same error *)
+Lemma ctx_err_ctx_end cx t e t' e' : ctx_err cx t = Some e -> ctx_err (ctx_end cx t' e') t = Some e.
+Proof.
+  intros H. unfold ctx_end. destruct (ctx_err cx t') eqn:E; [exact H|]. simpl.
+  destruct (Nat.eqb_spec t' t) as [->|]; [congruence|exact H].
+Qed.
+
+Lemma ctx_err_ctx_end_same cx t e : exists e', ctx_err (ctx_end cx t e) t = Some e'.
+Proof.
+  unfold ctx_end. destruct (ctx_err cx t) eqn:E; [eauto|]. simpl. rewrite Nat.eqb_refl. eauto.
+Qed.
